@@ -8,20 +8,23 @@
 #include "stubs/C04_printf.h"
 #ifdef C04_INT_LOCKSTEP
 #define C04_NUM_FRAME(r) (verif_exc == 0 && (r)->length == g_dstart + g_ndigits && g_dstart <= (r)->offset && (r)->offset <= (r)->length)
-#define C04_DEC_LOOP \
-  __CPROVER_assigns(int_data, r->offset, verif_exc) \
+#define C04_DEC_LOOP(...) /* arguments: the local variables the loop assigns, read from the loop's own text */ \
+  __CPROVER_assigns(__VA_ARGS__, r->offset, verif_exc) \
   __CPROVER_loop_invariant(C04_NUM_FRAME(r)) \
   __CPROVER_loop_invariant((uint64_t)int_data == g_pref[r->offset - g_dstart]) \
+  C04_DEC_OVF_INV \
   __CPROVER_decreases(r->length - r->offset)
+/* C04_DEC_OVF_INV (defined by the extraction, props/C04.py): when the number block keeps a flag "the integer digits left the int64
+ * range", the flag stays clear on every prefix of the canonical numeral of an int64 value */
 /* value of the first j of n hexadecimal digits of m */
 #define C04_HEX_PREFIX(m, n, j) ((j) == 0 ? (uint64_t)0 : (m) >> (4 * ((n) - (j))))
-#define C04_HEX_LOOP \
-  __CPROVER_assigns(int_data, r->offset, verif_exc) \
+#define C04_HEX_LOOP(...) \
+  __CPROVER_assigns(__VA_ARGS__, r->offset, verif_exc) \
   __CPROVER_loop_invariant(C04_NUM_FRAME(r)) \
   __CPROVER_loop_invariant((uint64_t)int_data == C04_HEX_PREFIX(g_mag, g_ndigits, r->offset - g_dstart)) \
   __CPROVER_decreases(r->length - r->offset)
 #else
-#define C04_DEC_LOOP
-#define C04_HEX_LOOP
+#define C04_DEC_LOOP(...)
+#define C04_HEX_LOOP(...)
 #endif
 #endif
